@@ -45,4 +45,31 @@ theorem exec_cases :
 theorem magic_cases :
     LookupdProto.magicCases = ["assign _, err := io.ReadFull(conn, buf)", "case \" V1\""] := by decide
 
+
+/-- The DB key of a connection (`PeerInfo.id`, unexported, so not a JSON member) is set once,
+from `client.RemoteAddr()`, BEFORE the body is unmarshalled, and never assigned again;
+`RemoteAddress` is overwritten AFTER unmarshalling. This is why the model may take the decoder's
+result to be the five IDENTIFY fields only and key every entry of connection `p` by `p` itself
+(`identify r p info now`): no member of the document can choose another connection's id. -/
+theorem identify_peer_id_from_connection :
+    LookupdProto.identifyPeerId =
+      ["assign peerInfo := PeerInfo{id: client.RemoteAddr().String()}",
+       "assign err = json.Unmarshal(body, &peerInfo)",
+       "assign peerInfo.RemoteAddress = client.RemoteAddr().String()"] := by decide
+
+/-- the exit path removes the registrations stored under the connection's own id -/
+theorem exit_path_own_id :
+    LookupdProto.exitPathId =
+      ["if client.peerInfo != nil",
+       "assign registrations := p.nsqlookupd.DB.LookupRegistrations(client.peerInfo.id)",
+       "assign removed, _ := p.nsqlookupd.DB.RemoveProducer(r, client.peerInfo.id)"] := by decide
+
+/-- Lock nesting (go2lean kind `locknest`): nsqlookupd has ONE lock, `RegistrationDB.RWMutex`, and no
+function acquires it (directly or through calls inside the package) while holding it — in
+particular no handler read-locks the DB around DB methods that read-lock again (with a writer
+waiting in between, a recursive `RLock` deadlocks the DB for good). Every critical section is
+therefore a leaf: it ends without waiting for another lock. -/
+theorem no_nested_db_lock :
+    LookupdProto.lockEdges = [] ∧ LookupdProto.lockEdgesLocks = ["RegistrationDB.RWMutex"] := by decide
+
 end Nsq.Tie.RegistryProto
